@@ -54,6 +54,20 @@ BIG = 1 << 30
 SIM_SEED_BASE = 600
 
 KNOWN_HITS = collections.Counter()   # measured: scenarios per known-finding id (decided by known_findings.json)
+PROTOCOL_VIOLATION = 0xA
+
+
+def repaired_f1():
+    """PROBE of the tree under check: does _parse_transport_parameters consult tls.early_data_accepted (the repair of
+    finding C06-F1)?  If so the model is fed the transcription of the repaired function (op 18, `OParamsP`), otherwise
+    the one of the function as it was (op 6, `OParams`).  A tree that holds only part of the repair is still compared
+    with the full `OParamsP`, and a tree without it with `OParams`: nothing is accepted by the probe itself."""
+    import inspect
+    from aioquic.quic.connection import QuicConnection
+    try:
+        return "early_data_accepted" in inspect.getsource(QuicConnection._parse_transport_parameters)
+    except (OSError, TypeError):
+        return False
 
 
 def data_for(sid, off, n):
@@ -73,6 +87,7 @@ class _Rec:
         self.last_frame_op = None   # index into self.chunks of the last received-frame op
         self.chunks = []        # per op: [tin, tout]
         self.closed = None        # error code of the subject's own CONNECTION_CLOSE
+        self.params_op = None     # index into self.chunks of the handshake transport-parameters op
         self.peer_closed = None   # error code of a CONNECTION_CLOSE sent by the real peer (handshake phase)
 
     def op(self, name, tin, tout):
@@ -118,6 +133,7 @@ def run_scenario(case, fair=True):
     from aioquic.buffer import Buffer
 
     logging.getLogger("quic").setLevel(logging.CRITICAL)
+    repaired = repaired_f1()
     seed = SIM_SEED_BASE + int(case.get("seed", 0))
     zero = case.get("zero")
     store = None
@@ -219,7 +235,14 @@ def run_scenario(case, fair=True):
             if event == "packet_received":
                 R.framelists.append([data["frames"], 0])
             elif event == "parameters_set" and data.get("owner") == "remote":
-                R.op("params", [6] + _params_tokens(data), [0])
+                if repaired:
+                    # PEEK: tls.early_data_accepted (what the repaired function branches on; the same value is
+                    # published afterwards in the HandshakeCompleted event)
+                    acc = bool(holder["conn"].tls.early_data_accepted)
+                    R.params_op = R.op("params_accepted" if acc else "params_not_accepted",
+                                       [18, 1 if acc else 2] + _params_tokens(data), [0])
+                else:
+                    R.params_op = R.op("params", [6] + _params_tokens(data), [0])
         return saved[4](self, category=category, event=event, data=data)
 
     def w_get_stop_frame(self):
@@ -426,7 +449,7 @@ def run_scenario(case, fair=True):
                 if ext_type == tls.ExtensionType.QUIC_TRANSPORT_PARAMETERS and tkt.max_early_data_size == 0xFFFFFFFF:
                     qp = pull_quic_transport_parameters(Buffer(data=ext_data))
                     d = {"initial_" + n: getattr(qp, "initial_" + n) for n in _PNAMES}
-                    R.op("params_remembered", [6] + _params_tokens(d), [0])
+                    R.op("params_remembered", ([18, 0] if repaired else [6]) + _params_tokens(d), [0])
                     break
         observe()
         for step in (zero or {}).get("early", []):
@@ -438,6 +461,10 @@ def run_scenario(case, fair=True):
         pair.pump(client)
         pair.run(lambda p: p.client.handshake_completed and p.server.handshake_completed, max_time=30)
         pair.run_until_idle(max_time=20)
+        if (check_closed() == PROTOCOL_VIOLATION and R.params_op is not None and not R.hc
+                and R.names[R.params_op] == "params_accepted"):
+            # the subject refused the handshake parameters (the error is raised after the qlog event the op was read from)
+            R.chunks[R.params_op][1] = [4, R.closed]
         observe()
         handshake_ok = client.handshake_completed and check_closed() is None and R.peer_closed is None
         progress = None
